@@ -65,6 +65,9 @@ func (m *measureWorld) vals(id int) rowVals {
 	if pick(6) == 0 {
 		v.null |= 1
 	}
+	if !m.cfg.NegZero && v.ff == 0 {
+		v.ff = 0 // -0.0 is exercised by C01 only
+	}
 	if m.cfg.Big && pick(5) == 0 {
 		v.ps = strings.Repeat(fmt.Sprintf("%08d", id), 40000) // 320 KB: several of these cross the 2 MiB block limit
 	}
@@ -78,6 +81,7 @@ type measureWorld struct {
 	srv    *server
 	res    *vlib.Result
 	pids   map[int]uint64 // spec part id -> real part id
+	seriesOf map[int]int   // row id -> series
 	group  string
 	root   string
 	cfg    config
@@ -88,7 +92,7 @@ type measureWorld struct {
 func newMeasureWorld(srv *server, cfg config, group string, res *vlib.Result) *measureWorld {
 	now := time.Now().UTC()
 	base := time.Date(now.Year(), now.Month(), now.Day(), 1, 0, 0, 0, time.UTC)
-	return &measureWorld{srv: srv, cfg: cfg, group: group, res: res, seed: vlib.Seed(), base: base, pids: map[int]uint64{}}
+	return &measureWorld{srv: srv, cfg: cfg, group: group, res: res, seed: vlib.Seed(), base: base, pids: map[int]uint64{}, seriesOf: map[int]int{}}
 }
 
 func (m *measureWorld) ts(t int) time.Time { return m.base.Add(time.Duration(t) * time.Minute) }
@@ -160,11 +164,24 @@ func (m *measureWorld) setup(ctx context.Context) error {
 	}
 	// the measure service learns about the schema asynchronously: wait until a query is answered
 	deadline := time.Now().Add(20 * time.Second)
+	probe := m.coverReq()
+	if m.cfg.Index != "none" && m.cfg.Index != "" {
+		// a criteria query on an indexed tag is rejected until the index rule binding has reached the
+		// measure's schema: writing before that would store the tag as an ordinary column
+		probe.Criteria = &modelv1.Criteria{Exp: &modelv1.Criteria_Condition{Condition: &modelv1.Condition{Name: "b", Op: modelv1.Condition_BINARY_OP_EQ, Value: tagStr("none")}}}
+	}
+	settled := 0
 	for {
-		_, qerr := m.query(ctx, m.coverReq())
+		_, qerr := m.query(ctx, probe)
 		if qerr == nil {
-			return nil
+			settled++
+			if settled >= 3 { // three consecutive answers: the schema events have been applied
+				return nil
+			}
+			time.Sleep(10 * time.Millisecond)
+			continue
 		}
+		settled = 0
 		if time.Now().After(deadline) {
 			return fmt.Errorf("schema not served after 20s: %w", qerr)
 		}
@@ -206,6 +223,9 @@ func tagInt(v int64) *modelv1.TagValue {
 
 func (m *measureWorld) rowTags(id int) (a int64, b string, arr []int64) {
 	t := m.cfg.RowTags[fmt.Sprint(id)]
+	if m.cfg.TagsBySeries {
+		t = m.cfg.RowTags[fmt.Sprint(m.seriesOf[id])]
+	}
 	a = int64(vlib.Int(t, "a"))
 	b = fmt.Sprintf("b%02d", vlib.Int(t, "b"))
 	for _, x := range vlib.Ints(vlib.List(t, "arr")) {
@@ -217,6 +237,7 @@ func (m *measureWorld) rowTags(id int) (a int64, b string, arr []int64) {
 
 func (m *measureWorld) dataPoint(row map[string]any) *measurev1.DataPointValue {
 	id := vlib.Int(row, "id")
+	m.seriesOf[id] = vlib.Int(row, "s")
 	v := m.vals(id)
 	a, b, arr := m.rowTags(id)
 	ps := tagStr(v.ps)
